@@ -12,7 +12,38 @@ NOTE_COMMON = ("Trusted: Lean 4.33 kernel; axioms limited to propext/Classical.c
                "(real txtorcon classes in-process vs. the compiled Lean driver on the same cases); "
                "Twisted/CPython behaviour as modelled (DESIGN.md §6). ")
 
+CTL_NOTE = NOTE_COMMON + ("The transition table of the line machine is regenerated from /repo on every run (lean/TxV/Gen/CtlTable.lean) and "
+            "interpreted by the model; handlers/matchers and the queue layer are hand-modelled. Twisted's LineOnlyReceiver framing is modelled as a "
+            "byte automaton; MAX_LENGTH is not modelled. ")
+
 CHECKS = {
+    'C01': dict(
+        text=("For EVERY input sequence (arbitrary bytes, arbitrary interleaving with submits): C01_fifo_once (firing order ++ pending = submission "
+              "order), C01_writes_in_order, C01_one_in_flight — invariants proved by induction over the model's steps. For every well-formed "
+              "session: C01_refines (the spaghetti machine with the generated table produces exactly the spec's outputs: replyText, per-line "
+              "callback, 5xx error) and C01_segmentation (any chunking = one piece). The model is compared output-for-output with the real "
+              "TorControlProtocol on adaptively generated sessions in three segmentations each."),
+        note=CTL_NOTE + "Sessions outside the reply grammar (Spec/CtlMsg) are only compared impl-vs-model.",
+        technique="Lean 4: invariant induction over all input sequences + refinement of the line machine (generated table) to a typed-line spec; differential correspondence",
+        ref='§4.0, §4 C01'),
+    'C02': dict(
+        text=("C02_delivery (a completed 6xx message reaches exactly the listeners registered at that moment, in order, once each, for EVERY "
+              "assignment of listener behaviours incl. raise/unsubscribe/subscribe during delivery), C02_nobody_else, C02_event_lines_silent + "
+              "C02_event_inert (no event line reaches a per-line callback or resolves/advances anything, whatever is in flight), "
+              "C02_setevents_add/remove (a SETEVENTS is submitted exactly when the set of names with listeners changes and lists exactly them), "
+              "on top of C01's refinement and invariants. Correspondence: sessions with the three event wire forms in every queue state and "
+              "scripted listener behaviours against the real protocol."),
+        note=CTL_NOTE + "Session-level erasure of events (non-interference over whole runs) is stated per step (C02_event_lines_silent, C02_event_inert), not as one run-level theorem.",
+        technique="Lean 4: theorems on the shared queue layer for all listener-action assignments + line-machine refinement; differential correspondence",
+        ref='§4 C02'),
+    'C03': dict(
+        text=("For EVERY input sequence (hence a loss at every byte offset of every session): C03_all_resolved (once lost, fired Deferreds = "
+              "submitted commands, each once, in order, nothing pending), C03_no_write_after_loss, C03_notified_once (every when_disconnected "
+              "request notified exactly once), C03_submit_after_loss. Correspondence: sessions with a loss at random points plus systematic "
+              "cuts at byte offsets, post-loss submissions and notification requests against the real protocol."),
+        note=CTL_NOTE + "The close reason is not part of the model (clean and unclean are both exercised in the correspondence run).",
+        technique="Lean 4: invariants by induction over all input sequences of the control-connection model; differential correspondence",
+        ref='§4 C03'),
     'C12': dict(
         text=("Theorems C12_roundtrip / C12_one_line / C12_refuse_iff / C12_wire: for every list of pairs and every value over all of Char, "
               "Tor's SETCONF grammar (Spec/KvLine) parses the model's command back to exactly the pairs, and the command contains no CR/LF; "
